@@ -278,7 +278,7 @@ func (g *c3gen) try(body, catch, fin *c3node, named bool) *c3node {
 func (g *c3gen) call(body *c3node) *c3node { return &c3node{kind: c3Call, kids: []*c3node{body}} }
 func (g *c3gen) loop(body *c3node) *c3node { return &c3node{kind: c3Loop, kids: []*c3node{body}} }
 
-const c3NumFixed = 8
+const c3NumFixed = 12
 
 func (g *c3gen) fixed(k int) *c3node {
 	switch k {
@@ -296,6 +296,14 @@ func (g *c3gen) fixed(k int) *c3node {
 		return g.try(g.exitLeaf(false), nil, g.wrap(g.try(g.exitLeaf(false), g.wrap(g.try(g.exitLeaf(false), nil, g.part(0, nil, false), false)), nil, true)), false)
 	case 6: // two sequential try statements inside a function, second leaves through both
 		return g.call(&c3node{kind: c3Seq, kids: []*c3node{g.try(g.exitLeaf(false), g.part(0, nil, false), nil, false), g.try(g.exitLeaf(false), nil, g.exitLeaf(false), false)}})
+	case 8: // loop inside a finally block whose body leaves a nested try with break/continue while a return/error is pending
+		return g.call(g.wrap(g.try(g.exitLeaf(false), nil, g.wrap(g.loop(g.wrap(g.try(g.exitLeaf(true), nil, g.part(0, nil, true), false)))), false)))
+	case 9: // break/continue directly out of a finally block, in a loop
+		return g.loop(g.wrap(g.try(g.exitLeaf(true), nil, g.exitLeaf(true), false)))
+	case 10: // break/continue out of a catch block with a finally, in a loop, after a completed try
+		return g.loop(&c3node{kind: c3Seq, kids: []*c3node{g.try(g.part(0, nil, true), nil, g.part(0, nil, true), false), g.try(g.exitLeaf(true), g.exitLeaf(true), g.part(0, nil, true), true)}})
+	case 11: // return inside a finally nested in another try/finally in a loop
+		return g.call(g.wrap(g.loop(g.wrap(g.try(g.wrap(g.try(g.exitLeaf(true), nil, g.exitLeaf(true), false)), nil, g.exitLeaf(true), false)))))
 	}
 	// 7: loop in finally with break/continue while a return is pending
 	return g.call(g.wrap(g.try(g.exitLeaf(false), nil, g.wrap(g.loop(g.exitLeaf(true))), false)))
